@@ -24,6 +24,7 @@ import (
 	"sync"
 
 	"github.com/henrylee2cn/erpc/v6"
+	"github.com/henrylee2cn/erpc/v6/codec"
 	"github.com/henrylee2cn/goutil"
 )
 
@@ -111,7 +112,13 @@ func (p *proxy) call(ctx erpc.UnknownCallCtx) (interface{}, *erpc.Status) {
 		label.RealIP = goutil.BytesToString(realIPBytes)
 	}
 	label.ServiceMethod = ctx.ServiceMethod()
+	// the body is forwarded as raw bytes, so it must travel with the caller's body codec
+	settings = append(settings, erpc.WithBodyCodec(ctx.GetBodyCodec()))
 	callcmd := p.callForwarder(&label).Call(label.ServiceMethod, ctx.InputBodyBytes(), &result, settings...)
+	// likewise the raw reply bytes keep the body codec chosen by the backend
+	if replyBodyCodec := callcmd.InputBodyCodec(); replyBodyCodec != codec.NilCodecID {
+		ctx.SetBodyCodec(replyBodyCodec)
+	}
 	callcmd.InputMeta().VisitAll(func(key, value []byte) {
 		ctx.SetMeta(goutil.BytesToString(key), goutil.BytesToString(value))
 	})
@@ -135,6 +142,8 @@ func (p *proxy) push(ctx erpc.UnknownPushCtx) *erpc.Status {
 		label.RealIP = goutil.BytesToString(realIPBytes)
 	}
 	label.ServiceMethod = ctx.ServiceMethod()
+	// the body is forwarded as raw bytes, so it must travel with the caller's body codec
+	settings = append(settings, erpc.WithBodyCodec(ctx.GetBodyCodec()))
 	stat := p.pushForwarder(&label).Push(label.ServiceMethod, ctx.InputBodyBytes(), settings...)
 	return badGateway(stat)
 }
